@@ -19,11 +19,13 @@ META = {
         "the raw constructors of the hash, the checksum part and the length part are not reachable from outside the crate and "
         "are used only by the two gated parsers, the part decoders and the generator (or private helpers all of whose callers "
         "are those) -- so no other entry point, e.g. a serde visitor, can build a hash around the strict gates."
+        "  The strict gates of both parsers are decided by abstract evaluation (rmodel, DESIGN 9.5) over all validity/outcome combinations, with the path rules above as fallback."
     ),
     "trusted_base": ["rustc nightly front end, Instance resolution and constant evaluator", "core::slice::binary_search returns an index <= slice length"],
     "assumptions": [],
     "not_decided": [],
 }
+TECHNIQUE = 'abstract evaluation of the strict gates in both parsers (all validity/outcome combinations), exhaustive evaluation of the validity predicates, who-may-construct rule over the call graph, generator value-range rules'
 PE = c05.PE
 
 
